@@ -135,3 +135,41 @@ package job
 //@   ensures [C09] present-task-never-marked-lost: forall j int :: 0 <= j && j < len(tasks) ==>
 //@        (exists i int :: 0 <= i && i < len(result) && result[i].Name == jobtasks.taskName(tasks[j]) && result[i].Status == jobtasks.taskRefOf(tasks[j]).Status)
 //@   ensures [C11] count-covers-present-tasks: len(result) >= len(tasks)
+
+// ---- condition.go (C10, C11, C12) ------------------------------------------------------------------------------------------------
+
+//@ pure admErr(rj *execution.Job) bool = LabelKeyAdmissionErrorMessage in rj.Annotations
+//@ pure settledI(rj *execution.Job, i Int) bool = !parallel.hasI(rj.Status.Tasks, parallel.idxHash(parallel.specOf(rj), i)) || parallel.allFinI(rj.Status.Tasks, parallel.idxHash(parallel.specOf(rj), i))
+//@ pure oneOf(c execution.JobCondition) bool =
+//@     ((c.Queueing != nil ? 1 : 0) + (c.Waiting != nil ? 1 : 0) + (c.Running != nil ? 1 : 0) + (c.Finished != nil ? 1 : 0)) == 1
+
+//@ func GetAdmissionErrorMessage
+//@   requires rj != nil
+//@   ensures result1 == admErr(rj)
+
+//@ func GetCondition
+//@   tags C10, C11, C12
+//@   requires rj != nil
+//@   modifies clock
+//@   loop 1 invariant -1 <= rangeindex
+//@   ensures [C11] exactly-one-condition: result1 == nil ==> oneOf(result0)
+//@   ensures [C06,C12] admission-error-is-final: admErr(rj) ==> result1 == nil && result0.Finished != nil && result0.Finished.Result == execution.JobResultAdmissionError
+//@   ensures [C11] unstarted-is-queueing: !admErr(rj) && !IsStarted(rj) ==> result1 == nil && result0.Queueing != nil
+//@   ensures [C10] success-only-if-strategy-satisfied: result1 == nil && !admErr(rj) && result0.Finished != nil && result0.Finished.Result == execution.JobResultSuccess
+//@        ==> parallel.satisfied(rj, rj.Status.Tasks) && rj.Spec.KillTimestamp.IsZero()
+//@   ensures [C10] failed-only-if-strategy-impossible: result1 == nil && !admErr(rj) && result0.Finished != nil && result0.Finished.Result == execution.JobResultFailed
+//@        ==> parallel.impossible(rj, rj.Status.Tasks) && !parallel.satisfied(rj, rj.Status.Tasks) && rj.Spec.KillTimestamp.IsZero()
+//@   ensures [C10] finished-only-when-no-task-alive: result1 == nil && !admErr(rj) && result0.Finished != nil
+//@        ==> (forall i int :: 0 <= i && i < parallel.numIdx(parallel.specOf(rj)) ==> settledI(rj, i))
+//@   ensures [C12] killed-needs-kill-timestamp: result1 == nil && result0.Finished != nil && result0.Finished.Result == execution.JobResultKilled ==> !rj.Spec.KillTimestamp.IsZero()
+//@   ensures [C10] decided-and-settled-is-finished: result1 == nil && !admErr(rj) && IsStarted(rj) && rj.Spec.KillTimestamp.IsZero()
+//@        && (parallel.satisfied(rj, rj.Status.Tasks) || parallel.impossible(rj, rj.Status.Tasks))
+//@        && (forall i int :: 0 <= i && i < parallel.numIdx(parallel.specOf(rj)) ==> settledI(rj, i))
+//@        ==> result0.Finished != nil && result0.Finished.Result == (parallel.satisfied(rj, rj.Status.Tasks) ? execution.JobResultSuccess : execution.JobResultFailed)
+//@   ensures [C12] kill-due-ends-killed-once-settled: result1 == nil && !admErr(rj) && IsStarted(rj) && !rj.Spec.KillTimestamp.IsZero() && ns(rj.Spec.KillTimestamp.Time) <= old(clock)
+//@        && (forall i int :: 0 <= i && i < parallel.numIdx(parallel.specOf(rj)) ==> settledI(rj, i))
+//@        ==> result0.Finished != nil && result0.Finished.Result == execution.JobResultKilled
+//@   ensures [C12] kill-due-waits-for-tasks: result1 == nil && !admErr(rj) && IsStarted(rj) && !rj.Spec.KillTimestamp.IsZero() && ns(rj.Spec.KillTimestamp.Time) <= old(clock)
+//@        && (exists i int :: 0 <= i && i < parallel.numIdx(parallel.specOf(rj)) && !settledI(rj, i))
+//@        ==> result0.Waiting != nil && result0.Finished == nil
+//@   ensures [C11] cached-job-untouched: *rj == old(*rj)
